@@ -5,5 +5,6 @@ CONSTANTS
   MaxRetry = 1
   BugEarlyIdle = TRUE
   BugLateDialLeak = FALSE
+  BugStrayDial = FALSE
 INVARIANTS Inv_C06_OwnReply Inv_C06_CleanIdleStrict Inv_C06_IdleNotServing Inv_C18_NoLeak
 CHECK_DEADLOCK FALSE
